@@ -55,7 +55,7 @@ func c10Schedules(ck *Checker, rep *Report, opts *Options) {
 	cmd.Env = append(os.Environ(), "VERIF_C10=1", "VERIF_C10_MAX="+max, fmt.Sprintf("VERIF_SEED=%d", opts.Seed), "GOFLAGS=-mod=mod", "GOWORK=off")
 	out, _ := cmd.CombinedOutput()
 	parseBounded(rep, string(out), "c10sched", 1, "channel-semantics-under-every-schedule",
-		"14 scenarios (unbuffered and capacity-1 channels; send-then-close vs one or two receives, two sends vs two receives from one or two threads, close vs receive; at most 3 threads, 2 values): every interleaving at pthread mutex/cond granularity enumerated depth-first up to "+max+" schedules per scenario, then "+max+"/2 random schedules where the enumeration was cut off")
+		"18 scenarios (unbuffered and capacity-1 channels; send-then-close vs one or two receives, two sends vs two receives from one or two threads, close vs receive, blocking select with one receive or one send case; at most 3 threads, 2 values): every interleaving at pthread mutex/cond granularity enumerated depth-first up to "+max+" schedules per scenario, then "+max+"/2 random schedules where the enumeration was cut off")
 	var sc []string
 	for _, m := range regexp.MustCompile(`ZZSCEN (.*)`).FindAllStringSubmatch(string(out), -1) {
 		sc = append(sc, m[1])
